@@ -208,6 +208,55 @@ def gen_tiny(ctx, sel, workers):
     return out, rots
 
 
+def _dcfg(init_next, maxpre, mid, mech, invs):
+    return (
+        init_next
+        + "CONSTANTS\n PatchName = \"L1\"\n MaxN = 3\n MaxDiam = \"any\"\n ClosedPick = {}\n MaxPre = %d\n MidReads = %s\n DMech = \"%s\"\n" % (maxpre, "TRUE" if mid else "FALSE", mech)
+        + "".join("INVARIANT %s\n" % i for i in invs)
+        + "CHECK_DEADLOCK FALSE\n"
+    )
+
+
+def derived_model(ctx, maxpre, workers):
+    """Model-check the derived-grid machine (intended mechanism; every complete history is emitted) and show
+    that the mechanism 'subset sizes recomputed from a table whose padding was renumbered' violates it."""
+    r = ctx.tlc_ok("AreaDerived", _dcfg("SPECIFICATION DSpec\n", maxpre, True, "intended", ["DerivedExact", "HistoryFree", "DEmit"]), what="derived-grid machine (isel / dual after source reads), intended mechanism, pre-reads <= %d" % maxpre, workers=workers, timeout=1200)
+    hs = [v[1] for v in X.prints(r.out) if v[0] == "H"]
+    if not hs:
+        raise Machinery("AreaDerived emitted no history")
+    rr = ctx.tlc("AreaDerived", _dcfg("SPECIFICATION DSpec\n", 1, False, "slice_sizes_from_corrupt_table", ["DerivedExact"]), what="defect mechanism slice_sizes_from_corrupt_table must violate DerivedExact", workers=2, count=False, timeout=600)
+    if rr.violated != "DerivedExact":
+        raise Machinery("AreaDerived with the defect mechanism: expected DerivedExact to be violated, got %r" % rr.violated)
+    return [[[st["act"], st["arg"]] for st in h] for h in hs]
+
+
+def derived_info(ctx, meshes, workers):
+    """TLC proves the preconditions of the meshes and emits, per selection, the source faces a derived grid
+    must consist of, with sizes, exact descriptors and classes."""
+    path = os.path.join(ctx.work, "dmeshes.ndjson")
+    with open(path, "w") as fh:
+        for m in meshes:
+            fh.write(json.dumps({"id": m["id"], "nodes": m["nodes"], "faces": m["faces"], "soup": m["soup"]}) + "\n")
+    r = ctx.tlc_ok("AreaDerived", _dcfg("INIT SelInit\nNEXT SelNext\n", 0, False, "intended", ["SelOK", "SelEmit"]), what="selections on %d mixed-size meshes: preconditions, partitions, expected faces" % len(meshes), workers=workers, env={"MESH_FILE": path}, timeout=1200)
+    info = {}
+    for v in X.prints(r.out):
+        if v[0] == "D":
+            d = v[2]
+            info[v[1]] = {
+                "ex": [[list(t) for t in e] for e in d["ex"]],
+                "buckets": list(d["buckets"]),
+                "sizes": list(d["sizes"]),
+                "closed": bool(d["closed"]),
+                "sides": sorted(list(sd) for sd in d["sides"]),
+                "nodesel": [list(x) for x in d["nodesel"]],
+                "sels": {n: list(fs) for n, fs in d["sels"]},
+            }
+    if set(info) != set(m["id"] for m in meshes):
+        raise Machinery("derived selections: %d emitted for %d meshes" % (len(info), len(meshes)))
+    os.remove(path)
+    return info
+
+
 def _rot_seq(x, k):
     return x[k:] + x[:k]
 
@@ -217,6 +266,9 @@ JUDGED_KEYS = {
     "face": ["kind", "id", "bucket", "neg", "cneg", "czero", "d", "g", "t", "cx"],
     "orbit": ["kind", "id", "bucket", "neg", "shift_d", "shift_hi", "rot", "subs"],
     "f32": ["kind", "id", "raised", "neg", "q", "qd"],
+    "derived": ["kind", "id", "raised", "neg", "n_face", "exp", "exp_sizes", "npf", "q_inv", "qe"],
+    "dual": ["kind", "id", "raised", "neg", "closed", "q_inv", "tot"],
+    "partition": ["kind", "id", "part_q"],
     "mesh": ["kind", "id", "bucket", "neg", "tot_d", "tot_hi", "tot_g", "tot_t", "tot_fn", "renum", "cached"],
 }
 
@@ -291,6 +343,7 @@ def run(ctx):
     # ---- 1. cache machine
     rules = ["t4", "g3", "t8"]
     hists, long_hists = cache_model(ctx, rules, 4 if thorough else 3, 12, 600 if thorough else 150, w_small)
+    dhists = derived_model(ctx, 2 if thorough else 1, w_small)
     # ---- 2. generators (concurrently) while the kernels are compiled / loaded
     if thorough:
         plans = [
@@ -385,6 +438,39 @@ def run(ctx):
         fut_tiny = tp.submit(lambda: (time.sleep(0.07), gen_tiny(ctx, tiny_sel, w_small))[1])
         orbits = fut_orb.result()
         tiny, rotseq = fut_tiny.result()
+    # ---- 3c. derived grids: mixed-size meshes (padded tables)
+    dmeshes = []
+    for name, rot, cut in [("truncated_octahedron_split", 0, 0), ("cuboctahedron", 7, 3)] + ([("truncated_cube_split", 5, 0), ("truncated_octahedron_split", 11, 3)] if thorough else []):
+        es = catalog.entries(name=name, rot=rot, cut=cut)
+        if len(es) != 1:
+            raise Machinery("catalogue entry %s/r%d/c%d not found" % (name, rot, cut))
+        dmeshes.append({"id": catalog.eid(es[0]), "nodes": es[0]["nodes"], "faces": es[0]["faces"], "soup": False})
+    for patch in ["X6o"] + (["D12", "L2"] if thorough else []):
+        by_size = {}
+        for fc in sorted((x for x in faces if x["patch"] == patch), key=lambda x: x["id"]):
+            by_size.setdefault(len(fc["dirs"]), []).append(fc)
+        pick = [fc for n in sorted(by_size) for fc in by_size[n][:: max(1, len(by_size[n]) // 4)][:4]]
+        rng.shuffle(pick)
+        ids, nodes, conn = {}, [], []
+        for fc in pick:
+            row = []
+            for v in fc["dirs"]:
+                kk = X._key(v)
+                if kk not in ids:
+                    ids[kk] = len(nodes)
+                    nodes.append(list(kk))
+                row.append(ids[kk])
+            conn.append(row)
+        dmeshes.append({"id": "soup:%s" % patch, "nodes": nodes, "faces": conn, "soup": True})
+    dinfo = derived_info(ctx, dmeshes, w_small)
+    for m in dmeshes:
+        m["info"] = dinfo[m["id"]]
+    ditems = []
+    for m in dmeshes:
+        for k, h in enumerate(dhists):
+            plan = [a[1] for a in h if a[0] == "derive"]
+            if all((p == "dual" and m["info"]["closed"]) or p in m["info"]["sels"] for p in plan):
+                ditems.append({"id": "%s|d%d" % (m["id"], k), "mesh": m, "acts": h})
     prov_sel = [f for f in faces if not f["patch"].startswith("closed:")]
     rng.shuffle(prov_sel)
     prov_sel = prov_sel[: 12000 if thorough else 2400]
@@ -400,6 +486,7 @@ def run(ctx):
     face_recs = face_recs + tiny_recs + prov_recs
     f32_sel = list(prov_sel[: 3000 if thorough else 600])
     f32_recs = _flatten(pmap(X.f32_chunk, [{"faces": c} for c in _chunks(f32_sel, 150)]))
+    derived_recs = _flatten(pmap(X.derived_case, ditems))
     cache_meshes = [
         {"id": catalog.eid(e), "nodes": e["nodes"], "faces": e["faces"]}
         for e in catalog.entries(name=["cuboctahedron", "truncated_cube"], rot=[0, 7], cut=[0, 3])
@@ -413,7 +500,7 @@ def run(ctx):
     ctx.note("replay_wall_s", round(time.time() - t0, 1))
     # ---- 5. judge
     errors = [r for r in face_recs + orbit_recs + mesh_recs if "error" in r]
-    good = [r for r in face_recs + orbit_recs + mesh_recs if "error" not in r] + f32_recs
+    good = [r for r in face_recs + orbit_recs + mesh_recs if "error" not in r] + f32_recs + derived_recs
     failed = judge_records(ctx, good, w_big)
     tfailed = judge_traces(ctx, traces, rules, w_small)
     # ---- 6. verdicts
@@ -421,6 +508,7 @@ def run(ctx):
     orb_by_id = {o["id"]: o for o in orbits}
     mesh_by_id = {m["id"]: m for m in closed}
     rec_by_id = {(r["kind"], r["id"]): r for r in good}
+    ditem_by_id = {it["id"]: it for it in ditems}
     for e in errors:
         ctx.violation("chunk:%s" % e["ids"][0], "Raises", detail=e, sig={"site": "Grid.compute_face_areas"}, replay={"kind": "error", "ids": e["ids"]})
     for r in good:
@@ -430,12 +518,18 @@ def run(ctx):
             ctx.count(1 + 24 + r["n"], "orbit:" + r["id"])
         elif r["kind"] == "f32":
             ctx.count(1, "f32:" + r["id"])
+        elif r["kind"] in ("derived", "dual", "partition"):
+            ctx.count(1, r["kind"] + ":" + r["id"])
         else:
             ctx.count(1, "mesh:" + r["id"])
     for (kind, rid), (clauses, cart) in sorted(failed.items()):
         r = rec_by_id[(kind, rid)]
         for clause in clauses:
-            sig = {"kind": kind, "bucket": r["bucket"]}
+            sig = {"kind": kind, "bucket": r.get("bucket", "")}
+            if kind in ("derived", "dual", "partition"):
+                it = ditem_by_id[rid.split("@")[0].split("|partition")[0]]
+                pre = [a[1] for a in it["acts"][: int(rid.split("@")[1].split(":")[0]) - 1] if a[0] == "read"] if "@" in rid else []
+                sig = {"kind": kind, "mesh": r["mesh"], "sel": r.get("sel", ""), "source_reads_before": sorted(set(pre))}
             if kind == "f32":
                 sig["source"] = r["source"]
             if clause == "CartesianInputAgrees":
@@ -445,6 +539,8 @@ def run(ctx):
             elif kind == "face":
                 base = rid.split(":", 1)[1].split("|")[0]
                 rp = {"kind": "derived", "id": rid, "face": by_id.get(base), "dirs": r.get("dirs"), "M": r.get("M"), "to": r.get("to")}
+            elif kind in ("derived", "dual", "partition"):
+                rp = {"kind": "derived", "item": ditem_by_id[rid.split("@")[0].split("|partition")[0]]}
             elif kind == "f32":
                 rp = {"kind": "f32", "faces": [by_id[rid.split(":", 1)[1]]]}
             elif kind == "orbit":
@@ -493,6 +589,7 @@ def run(ctx):
     ctx.note("tiny_faces_worst_q(1e-13,1e-6)", tw)
     ctx.note("provenance_records", len(prov_recs))
     ctx.note("float32_source_records", len(f32_recs))
+    ctx.note("derived_grid_histories", {"histories": len(ditems), "records": len(derived_recs), "meshes": {m["id"]: sorted(set(m["info"]["sizes"])) for m in dmeshes}})
     for r in face_recs[:1] + orbit_recs[:1] + mesh_recs[:1]:
         ctx.sample({k: v for k, v in r.items() if k != "subs"})
     if traces:
@@ -526,6 +623,8 @@ def replay(path):
             rec = X.history_case(rp["item"])
         elif rp["kind"] == "f32":
             rec = X.f32_chunk({"faces": rp["faces"]})
+        elif rp["kind"] == "derived" and "item" in rp:
+            rec = X.derived_case(rp["item"])
         elif rp["kind"] == "derived" and rp.get("face") and rp["id"].split(":")[0] in ("both", "xyz"):
             rec = [x for x in X.prov_chunk({"faces": [rp["face"]]}) if x.get("id") == rp["id"]]
         else:
